@@ -23,6 +23,35 @@ use std::sync::Arc;
 pub mod dispatch;
 
 // ---------------------------------------------------------------------------------------------
+// DateTime values outside the i64 tick range (a caller can build them: `DateTime::ymd(40000,1,1)`,
+// `From<chrono::DateTime<Utc>>`, arithmetic): ticks are carried as i128 in the value trees
+// ---------------------------------------------------------------------------------------------
+
+fn epoch_chrono() -> chrono::DateTime<chrono::Utc> {
+    use chrono::TimeZone;
+    chrono::Utc.with_ymd_and_hms(1601, 1, 1, 0, 0, 0).unwrap()
+}
+
+/// the tick count of the chrono value a `DateTime` holds, without going through `DateTime::ticks()`
+pub fn true_ticks(d: &DateTime) -> i128 {
+    let dur = d.as_chrono().signed_duration_since(epoch_chrono());
+    let secs = dur.num_seconds();
+    let nanos = (dur - chrono::TimeDelta::seconds(secs)).num_nanoseconds().unwrap_or(0);
+    secs as i128 * 10_000_000 + (nanos / 100) as i128
+}
+
+/// inside the i64 range exactly what `DateTime::from(i64)` gives, outside it the chrono value
+pub fn dt_from_ticks(t: i128) -> DateTime {
+    if t >= i64::MIN as i128 && t <= i64::MAX as i128 {
+        DateTime::from(t as i64)
+    } else {
+        let secs = (t / 10_000_000) as i64;
+        let nanos = ((t % 10_000_000) * 100) as i64;
+        DateTime::from(epoch_chrono() + chrono::TimeDelta::seconds(secs) + chrono::TimeDelta::nanoseconds(nanos))
+    }
+}
+
+// ---------------------------------------------------------------------------------------------
 // printing
 // ---------------------------------------------------------------------------------------------
 
@@ -102,7 +131,7 @@ pub fn t_variant(v: &Variant, out: &mut Vec<String>) {
             out.push("str".into());
             t_str(x, out)
         }
-        Variant::DateTime(x) => p("dt", x.ticks().to_string()),
+        Variant::DateTime(x) => p("dt", true_ticks(x).to_string()),
         Variant::Guid(x) => p("guid", format!("x{}", hex(x.as_bytes()))),
         Variant::StatusCode(x) => p("sc", x.bits().to_string()),
         Variant::ByteString(x) => {
@@ -196,13 +225,13 @@ pub fn t_dv(d: &DataValue, out: &mut Vec<String>) {
         out.push(s.bits().to_string());
     }
     if let Some(t) = &d.source_timestamp {
-        out.push(t.ticks().to_string());
+        out.push(true_ticks(t).to_string());
     }
     if let Some(p) = &d.source_picoseconds {
         out.push(p.to_string());
     }
     if let Some(t) = &d.server_timestamp {
-        out.push(t.ticks().to_string());
+        out.push(true_ticks(t).to_string());
     }
     if let Some(p) = &d.server_picoseconds {
         out.push(p.to_string());
@@ -392,7 +421,7 @@ pub fn p_variant(t: &mut Toks) -> Option<Variant> {
         "f32" => Variant::Float(f32::from_bits(bits_of(t.next()?)? as u32)),
         "f64" => Variant::Double(f64::from_bits(bits_of(t.next()?)?)),
         "str" => Variant::String(p_str(t)?),
-        "dt" => Variant::DateTime(Box::new(DateTime::from(t.num::<i64>()?))),
+        "dt" => Variant::DateTime(Box::new(dt_from_ticks(t.num::<i128>()?))),
         "guid" => Variant::Guid(Box::new(p_guid(t)?)),
         "sc" => Variant::StatusCode(StatusCode::from_bits_truncate(t.num()?)),
         "bs" => Variant::ByteString(p_bstr(t)?),
@@ -455,9 +484,9 @@ pub fn p_dv(t: &mut Toks) -> Option<DataValue> {
     let bits: u8 = t.num()?;
     let value = if bits & 1 != 0 { Some(p_variant(t)?) } else { None };
     let status = if bits & 2 != 0 { Some(StatusCode::from_bits_truncate(t.num()?)) } else { None };
-    let source_timestamp = if bits & 4 != 0 { Some(DateTime::from(t.num::<i64>()?)) } else { None };
+    let source_timestamp = if bits & 4 != 0 { Some(dt_from_ticks(t.num::<i128>()?)) } else { None };
     let source_picoseconds = if bits & 16 != 0 { Some(t.num()?) } else { None };
-    let server_timestamp = if bits & 8 != 0 { Some(DateTime::from(t.num::<i64>()?)) } else { None };
+    let server_timestamp = if bits & 8 != 0 { Some(dt_from_ticks(t.num::<i128>()?)) } else { None };
     let server_picoseconds = if bits & 32 != 0 { Some(t.num()?) } else { None };
     Some(DataValue { value, status, source_timestamp, source_picoseconds, server_timestamp, server_picoseconds })
 }
@@ -710,8 +739,8 @@ fn norm_str(s: &UAString) -> UAString {
 
 fn norm_dt(t: &DateTime) -> DateTime {
     // clamped to 1601-01-01 .. 9999-12-31T23:59:59
-    let ticks = t.ticks().clamp(0, DateTime::endtimes_ticks());
-    DateTime::from(ticks)
+    let ticks = true_ticks(t).clamp(0, DateTime::endtimes_ticks() as i128);
+    DateTime::from(ticks as i64)
 }
 
 pub fn norm_variant(v: &Variant) -> Variant {
@@ -828,20 +857,27 @@ impl<'a> Gen<'a> {
         }
     }
 
-    pub fn ticks(&mut self) -> i64 {
-        match self.rng.below(14) {
+    pub fn ticks(&mut self) -> i128 {
+        match self.rng.below(20) {
             0 => 0,
             1 => -1,
             2 => 1,
-            3 => END_TICKS,
-            4 => END_TICKS + 1,
-            5 => END_TICKS - 1,
-            6 => i64::MAX,
-            7 => i64::MAX - 1,
-            8 => i64::MIN,
-            9 => i64::MIN + 1,
-            10 => 132_000_000_000_000_000 + (self.rng.next() % 10_000_000_000) as i64,
-            _ => self.rng.next() as i64,
+            3 => END_TICKS as i128,
+            4 => END_TICKS as i128 + 1,
+            5 => END_TICKS as i128 - 1,
+            6 => i64::MAX as i128,
+            7 => i64::MAX as i128 - 1,
+            8 => i64::MIN as i128,
+            9 => i64::MIN as i128 + 1,
+            10 => 132_000_000_000_000_000 + (self.rng.next() % 10_000_000_000) as i128,
+            // beyond the i64 range: years 30829 … 262000 and −27626 … −262000
+            11 => i64::MAX as i128 + 1,
+            12 => i64::MIN as i128 - 1,
+            13 => 12_000_000_000_000_000_000,
+            14 => -12_000_000_000_000_000_000,
+            15 => 79_000_000_000_000_000_000,
+            16 => -79_000_000_000_000_000_000 + (self.rng.next() % 1000) as i128,
+            _ => self.rng.next() as i64 as i128,
         }
     }
 
@@ -904,7 +940,7 @@ impl<'a> Gen<'a> {
                 _ => self.rng.next(),
             })),
             12 => Variant::String(self.ua_string()),
-            13 => Variant::DateTime(Box::new(DateTime::from(self.ticks()))),
+            13 => Variant::DateTime(Box::new(dt_from_ticks(self.ticks()))),
             14 => {
                 let b: [u8; 16] = self.rng.bytes(16).try_into().unwrap();
                 Variant::Guid(Box::new(Guid::from_bytes(b)))
@@ -1047,9 +1083,9 @@ impl<'a> Gen<'a> {
         DataValue {
             value: if bits & 1 != 0 { Some(self.variant(depth.saturating_sub(1))) } else { None },
             status: if bits & 2 != 0 { Some(StatusCode::from_bits_truncate(self.rng.next() as u32)) } else { None },
-            source_timestamp: if bits & 4 != 0 { Some(DateTime::from(self.ticks())) } else { None },
+            source_timestamp: if bits & 4 != 0 { Some(dt_from_ticks(self.ticks())) } else { None },
             source_picoseconds: if bits & 16 != 0 { Some(self.u_boundary(16) as u16) } else { None },
-            server_timestamp: if bits & 8 != 0 { Some(DateTime::from(self.ticks())) } else { None },
+            server_timestamp: if bits & 8 != 0 { Some(dt_from_ticks(self.ticks())) } else { None },
             server_picoseconds: if bits & 32 != 0 { Some(self.u_boundary(16) as u16) } else { None },
         }
     }
@@ -1166,30 +1202,50 @@ impl<'a> Gen<'a> {
         match ty {
             Ty::Sc(t) => {
                 let v = self.scalar(*t);
-                let (b, _) = Val::V(v).encode();
-                out.extend_from_slice(&b[1..]);
-                true
+                match Val::V(v).try_encode() {
+                    Some(b) => {
+                        out.extend_from_slice(&b[1..]);
+                        true
+                    }
+                    // the encoder failed or panicked: the `enc` ops exhibit that, here go on without it
+                    None => false,
+                }
             }
             Ty::Variant => {
                 let keep = self.ill_formed;
                 self.ill_formed = false;
                 let v = self.variant(2);
                 self.ill_formed = keep;
-                out.extend(Val::V(v).encode().0);
-                true
+                match Val::V(v).try_encode() {
+                    Some(b) => {
+                        out.extend(b);
+                        true
+                    }
+                    None => false,
+                }
             }
             Ty::DataValue => {
                 let keep = self.ill_formed;
                 self.ill_formed = false;
                 let v = self.data_value(2);
                 self.ill_formed = keep;
-                out.extend(Val::DV(v).encode().0);
-                true
+                match Val::DV(v).try_encode() {
+                    Some(b) => {
+                        out.extend(b);
+                        true
+                    }
+                    None => false,
+                }
             }
             Ty::DiagInfo => {
                 let v = self.diagnostic_info(2);
-                out.extend(Val::DI(v).encode().0);
-                true
+                match Val::DI(v).try_encode() {
+                    Some(b) => {
+                        out.extend(b);
+                        true
+                    }
+                    None => false,
+                }
             }
             Ty::Enum(w, vals) => {
                 if spoil && self.rng.chance(1, 6) {
@@ -1248,5 +1304,106 @@ pub fn run_sdec(name: &str, lim: &Lim, bytes: &[u8]) -> (String, Option<Result<(
         None => ("bad-op".to_string(), None),
         Some(Err(e)) => ("err".to_string(), Some(Err(e))),
         Some(Ok((pos, re, len, rep))) => (format!("ok {} x{} {}", pos, hex(&re), len), Some(Ok((pos, re, len, rep)))),
+    }
+}
+
+// ---------------------------------------------------------------------------------------------
+// UA-TCP messages and the object-id dispatch (C02)
+// ---------------------------------------------------------------------------------------------
+
+fn mtype_num(t: &opcua::core::comms::tcp_types::MessageType) -> u8 {
+    use opcua::core::comms::tcp_types::MessageType::*;
+    match t {
+        Invalid => 0,
+        Hello => 1,
+        Acknowledge => 2,
+        Chunk => 3,
+        Error => 4,
+    }
+}
+
+fn show_str(s: &UAString) -> String {
+    match s.value() {
+        None => "-".into(),
+        Some(v) => format!("s{}", hex(v.as_bytes())),
+    }
+}
+
+/// `dec MsgHeader|Hello|Ack|Error|ChunkHeader|ReadBytes <opts> x<hex>`
+pub fn run_tcp(ty: &str, lim: &Lim, bytes: &[u8]) -> Option<String> {
+    use opcua::core::comms::message_chunk::MessageChunkHeader;
+    use opcua::core::comms::tcp_types::*;
+    let o = lim.options();
+    let mut c = Cursor::new(bytes);
+    let nums = |v: &[u32]| format!("[{}]", v.iter().map(|x| x.to_string()).collect::<Vec<_>>().join(","));
+    Some(match ty {
+        "MsgHeader" => match MessageHeader::decode(&mut c, &o) {
+            Ok(h) => format!("ok {} {} {}", c.position(), mtype_num(&h.message_type), h.message_size),
+            Err(_) => "err".into(),
+        },
+        "Hello" => match HelloMessage::decode(&mut c, &o) {
+            Ok(m) => format!(
+                "ok {} {} {} {} {}",
+                c.position(),
+                mtype_num(&m.message_header.message_type),
+                m.message_header.message_size,
+                nums(&[m.protocol_version, m.receive_buffer_size, m.send_buffer_size, m.max_message_size, m.max_chunk_count]),
+                show_str(&m.endpoint_url)
+            ),
+            Err(_) => "err".into(),
+        },
+        "Ack" => match AcknowledgeMessage::decode(&mut c, &o) {
+            Ok(m) => format!(
+                "ok {} {} {} {} ~",
+                c.position(),
+                mtype_num(&m.message_header.message_type),
+                m.message_header.message_size,
+                nums(&[m.protocol_version, m.receive_buffer_size, m.send_buffer_size, m.max_message_size, m.max_chunk_count])
+            ),
+            Err(_) => "err".into(),
+        },
+        "Error" => match ErrorMessage::decode(&mut c, &o) {
+            Ok(m) => format!(
+                "ok {} {} {} {} {}",
+                c.position(),
+                mtype_num(&m.message_header.message_type),
+                m.message_header.message_size,
+                nums(&[m.error]),
+                show_str(&m.reason)
+            ),
+            Err(_) => "err".into(),
+        },
+        "ChunkHeader" => match MessageChunkHeader::decode(&mut c, &o) {
+            Ok(h) => {
+                let mut w = Cursor::new(Vec::new());
+                let _ = h.encode(&mut w);
+                format!("ok {} x{}", c.position(), hex(&w.into_inner()))
+            }
+            Err(_) => "err".into(),
+        },
+        "ReadBytes" => match MessageHeader::read_bytes(&mut c, &o) {
+            Ok(v) => format!("ok {} x{}", c.position(), hex(&v)),
+            Err(_) => "err".into(),
+        },
+        _ => return None,
+    })
+}
+
+/// `msg <object id> <opts> x<hex>`: `SupportedMessage::decode_by_object_id`
+pub fn run_msg(id: u32, lim: &Lim, bytes: &[u8]) -> String {
+    use opcua::core::supported_message::SupportedMessage;
+    let object_id = match ObjectId::try_from(id) {
+        Ok(x) => x,
+        Err(_) => return "noid".into(),
+    };
+    let mut c = Cursor::new(bytes);
+    match SupportedMessage::decode_by_object_id(&mut c, object_id, &lim.options()) {
+        Err(_) => "err".into(),
+        Ok(SupportedMessage::Invalid(_)) => format!("invalid {}", c.position()),
+        Ok(m) => {
+            let mut w = Cursor::new(Vec::new());
+            let _ = m.encode(&mut w);
+            format!("ok {} x{} {}", c.position(), hex(&w.into_inner()), m.byte_len())
+        }
     }
 }
